@@ -1024,6 +1024,33 @@ from_patch("C19","seed6-owner-index-key-lowercased","seeded/C17-owner-index-key-
 from_patch("C18","seed6-block-list-filters-queries","seeded/C18-block-list-filters-queries/patch.diff","C18/R9","visibleNotifications:block-list-consulted-only-when-sending","seed round 6")
 from_patch("C19","seed6-params-validate-cross-field","seeded/C19-params-validate-cross-field/patch.diff","C19/R11","Validate:fails-only-on-errors","seed round 6")
 from_patch("C20","seed6-combiner-drops-leading-zero-nibbles","seeded/C20-combiner-drops-leading-zero-nibbles/patch.diff","C20/R1","filetree:combiner","seed round 6")
+# ---- seed round 7
+from_patch("C14","seed7-attestation-filter-handed-address","seeded/C01-attestation-filter-handed-address/patch.diff","C14/R6","form-candidates:filter-argument:RequestAttestation","seed round 7")
+from_patch("C02","seed7-burn-goes-to-file-owner","seeded/C02-burn-goes-to-file-owner/patch.diff","C02/R3","burnContract:burn-target-is-the-prover","seed round 7")
+from_patch("C03","seed7-burn-goes-to-file-owner","seeded/C02-burn-goes-to-file-owner/patch.diff","C03/R7","burnContract:burn-target-is-the-prover","seed round 7")
+from_patch("C11","seed7-set-ip-drops-burn-count","seeded/C03-set-ip-drops-burn-count/patch.diff","C11/R7","storage.MsgSetProviderIP:SetProviderIP:loaded-key=written-key:storage/Providers/value/","seed round 7")
+from_patch("C11","seed7-wasm-creator-guard-and-for-or","seeded/C04-wasm-creator-guard-and-for-or/patch.diff","C11/R4","wasm:storage.MsgPostFile:creator-is-contract","seed round 7")
+from_patch("C05","seed7-check-window-validator-swapped","seeded/C05-check-window-validator-swapped/patch.diff","C05/R1","RunRewardBlock:div:Param(storage).CheckWindow","seed round 7")
+from_patch("C06","seed7-block-senders-resolved-concurrently","seeded/C06-block-senders-resolved-concurrently/patch.diff","C06/R1","resolveSenders:go-statement","seed round 7")
+from_patch("C02","seed7-reward-sweep-reuses-decode-target","seeded/C07-reward-sweep-reuses-decode-target/patch.diff","C02/R4","ManageRewards$1:decode-target-reused:x/storage/types.UnifiedFile","seed round 7")
+from_patch("C03","seed7-reward-sweep-reuses-decode-target","seeded/C07-reward-sweep-reuses-decode-target/patch.diff","C03/R6","ManageRewards$1:decode-target-reused:x/storage/types.UnifiedFile","seed round 7")
+from_patch("C12","seed7-reward-sweep-reuses-decode-target","seeded/C07-reward-sweep-reuses-decode-target/patch.diff","C12/R6","ManageRewards$1:decode-target-reused:x/storage/types.UnifiedFile","seed round 7")
+from_patch("C17","seed7-reward-sweep-reuses-decode-target","seeded/C07-reward-sweep-reuses-decode-target/patch.diff","C17/R4","ManageRewards$1:decode-target-reused:x/storage/types.UnifiedFile","seed round 7")
+from_patch("C08","seed7-list-reprices-foreign-listing","seeded/C08-list-reprices-foreign-listing/patch.diff","C08/R1","rns.MsgList:owner-consent","seed round 7")
+from_patch("C09","seed7-getbids-lowercases-index","seeded/C09-getbids-lowercases-index/patch.diff","C09/R4","rns.MsgAcceptBid:delete-key","seed round 7")
+from_patch("C10","seed7-remove-editors-reinserts-owner","seeded/C10-remove-editors-reinserts-owner/patch.diff","C10/R7","filetree.MsgRemoveEditors:no-entry-added:RemoveEditors","seed round 7")
+from_patch("C11","seed7-feed-heartbeat-before-owner-check","seeded/C11-feed-heartbeat-before-owner-check/patch.diff","C11/R3","oracle.MsgUpdateFeed:feed-owner","seed round 7")
+from_patch("C19","seed7-genesis-import-drops-gauges","seeded/C12-genesis-import-drops-gauges/patch.diff","C19/R1","genesis-omits:storage/PaymentGauge/value/","seed round 7")
+from_patch("C06","seed7-mint-params-cached-in-keeper","seeded/C13-mint-params-cached-in-keeper/patch.diff","C06/R6","GetParams:writes-through-keeper-field","seed round 7")
+from_patch("C13","seed7-mint-params-cached-in-keeper","seeded/C13-mint-params-cached-in-keeper/patch.diff","C13/R2","recurrence:decrease-argument","seed round 7")
+from_patch("C14","seed7-report-filter-handed-address","seeded/C14-report-filter-handed-address/patch.diff","C14/R6","form-candidates:filter-argument:RequestReport","seed round 7")
+from_patch("C04","seed7-param-pairs-pointers-crossed","seeded/C15-param-pairs-pointers-crossed/patch.diff","C04/R10","storage:param-key:CheckWindow","seed round 7")
+from_patch("C14","seed7-param-pairs-pointers-crossed","seeded/C15-param-pairs-pointers-crossed/patch.diff","C14/R8","storage:param-key:CheckWindow","seed round 7")
+from_patch("C11","seed7-buy-rewrites-name-without-expiry","seeded/C16-buy-rewrites-name-without-expiry/patch.diff","C11/R7","rns.MsgBuy:BuyName:loaded-key=written-key:rns/Names/value/","seed round 7")
+from_patch("C17","seed7-shutdown-deletes-proofs-keeps-lists","seeded/C17-shutdown-deletes-proofs-keeps-lists/patch.diff","C17/R2","ShutdownProvider:proof-record-deleted-with-its-list-entry","seed round 7")
+from_patch("C18","seed7-self-send-skips-block-list","seeded/C18-self-send-skips-block-list/patch.diff","C18/R2","notifications.MsgCreateNotification:not-blocked","seed round 7")
+from_patch("C19","seed7-setforsale-drops-stale-listing","seeded/C19-setforsale-drops-stale-listing/patch.diff","C19/R9","SetForsale:setter-faithful","seed round 7")
+from_patch("C20","seed7-cli-post-file-normalises-path","seeded/C20-cli-post-file-normalises-path/patch.diff","C20/R4","CmdPostFile$1:hashes-the-given-path","seed round 7")
 
 _MODPROPS = {
  "x/storage": ["C01","C02","C03","C04","C05","C06","C07","C12","C14","C15","C17","C19"],
